@@ -178,8 +178,9 @@ def dest_string(has_dest: bool, dest: str, irt: int, unsol: bool):
     """Destination is a symbolic string compared by the real code with the SP's endpoint list."""
     acc, exc, ar = _run(irt, 0, dest if has_dest else None, 1, 0, 0, unsol, True, False, False, 0, 0, validate=False)
     dest_ok = (not has_dest) | (dest == ACS) | (dest == "")
-    ok = (acc == (dest_ok & (unsol | (irt == 0))))
-    return ok, acc, "accepted=%s exc=%r" % (acc, exc)
+    expect = dest_ok & (unsol | (irt == 0))
+    ok = (acc == expect)
+    return ok, acc | (not expect), "accepted=%s exc=%r" % (acc, exc)
 
 
 _P = [("irt", "int"), ("scd_irt", "int"), ("dest", "int"), ("r1", "int"), ("r2", "int"),
